@@ -24,9 +24,16 @@ int main(int argc, char** argv) {
         if (op == "next") { Spawner sp; b.try_to_spawn_task_for_next_token(sp, ed); res = sp.any ? 100 + (long)sp.got.my_token : 0; }
         else { r1::task_info info; info.my_object = (void*)(t + 1); if (op == "put") { info.my_token = t; info.my_token_ready = true; } res = b.try_put_token(info) ? 1 : 0; }
         std::vector<long> s1; for (size_t i = 0; i < b.array_size; i++) s1.push_back(b.array[i].is_valid ? (long)b.array[i].my_token : -1);
-        TR.emit("{\"e\":\"Op\",\"op\":\"%s\",\"t\":%ld,\"low0\":%lu,\"parked0\":[%s],\"res\":%ld,\"low1\":%lu,\"size1\":%zu,\"slots1\":[%s]}", op.c_str(), t, low, join(parked0).c_str(), res, b.low_token, (size_t)b.array_size, join(s1).c_str());
+        unsigned long low1 = b.low_token; size_t size1 = b.array_size;
+        // observable consequence of the state the call left behind: let the filter run on - whenever the next token has not arrived yet it arrives now - and record the
+        // order in which the parked items are handed out (each once, in token order)
+        std::vector<long> drain; long maxtok = -1; for (long x : s1) maxtok = std::max(maxtok, x); for (long x : parked0) maxtok = std::max(maxtok, x); maxtok = std::max(maxtok, t);
+        for (int guard = 0; guard < 80 && (long)b.low_token < maxtok; guard++) { Spawner sp; b.try_to_spawn_task_for_next_token(sp, ed);
+            if (sp.any) drain.push_back((long)sp.got.my_token);
+            else { r1::task_info info; info.my_object = (void*)1; info.my_token = b.low_token; info.my_token_ready = true; if (b.try_put_token(info)) { drain.push_back(-2); break; } } }      // the token whose turn it is must never be parked
+        TR.emit("{\"e\":\"Op\",\"op\":\"%s\",\"t\":%ld,\"low0\":%lu,\"parked0\":[%s],\"res\":%ld,\"low1\":%lu,\"size1\":%zu,\"slots1\":[%s],\"drain\":[%s]}", op.c_str(), t, low, join(parked0).c_str(), res, low1, size1, join(s1).c_str(), join(drain).c_str());
         ++n;
-        std::string real = std::to_string(res) + "|" + std::to_string(b.array_size) + "|" + std::to_string(b.low_token) + "|" + join(s1), want = f[6] + "|" + f[7] + "|" + f[8] + "|" + f[9];
+        std::string real = std::to_string(res) + "|" + std::to_string(size1) + "|" + std::to_string(low1) + "|" + join(s1), want = f[6] + "|" + f[7] + "|" + f[8] + "|" + f[9];
         if (real != want) { ++drift; if (shown++ < 5) fprintf(stderr, "SPEC-DRIFT input_buffer %s(%ld) on size %zu low %lu [%s]: model %s, real %s\n", op.c_str(), t, size, low, f[3].c_str(), want.c_str(), real.c_str()); }
     }
     TR.close();
